@@ -167,3 +167,25 @@ contract('gnpy.core.info.carriers_to_spectral_information', name='gnpy.core.info
                                 (('baud_rate', 'baud_rate'), ('slot_width', 'slot_width'), ('roll_off', 'roll_off'), ('tx_osnr', 'tx_osnr'),
                                  ('tx_power', 'tx_power'), ('pch', 'tx_power'), ('delta_pdb_per_channel', 'delta_pdb'), ('label', 'label'))))],
          modifies=[], use_at_calls=False)
+
+# ---------------------------------------------------------------- reported figures: every accessor states the share it is named
+# after, in W and in dBm, and the three 0.1 nm figures are the signal-bandwidth figures moved by the same bandwidth ratio
+_N = 'self._number_of_channels'
+_ACC = {
+    'signal': 'self._signal_ratio[i] * self._pch[i]', 'ase': 'self._ase_ratio[i] * self._pch[i]', 'nli': 'self._nli_ratio[i] * self._pch[i]',
+    'signal_dbm': 'spec_lin2db(self._signal_ratio[i] * self._pch[i] * 1000)', 'ase_dbm': 'spec_lin2db(self._ase_ratio[i] * self._pch[i] * 1000)',
+    'nli_dbm': 'spec_lin2db(self._nli_ratio[i] * self._pch[i] * 1000)', 'pch_dbm': 'spec_lin2db(self._pch[i] * 1000)',
+    'snr_lin': 'self._signal_ratio[i] / self._ase_ratio[i]', 'snr_nli': 'self._signal_ratio[i] / self._nli_ratio[i]',
+    'gsnr': 'self._signal_ratio[i] / (self._ase_ratio[i] + self._nli_ratio[i])',
+    'snr_lin_db': 'spec_lin2db(self._signal_ratio[i] / self._ase_ratio[i])', 'snr_nli_db': 'spec_lin2db(self._signal_ratio[i] / self._nli_ratio[i])',
+    'gsnr_db': 'spec_lin2db(self._signal_ratio[i] / (self._ase_ratio[i] + self._nli_ratio[i]))',
+    'opt_snr_lin_db': 'spec_lin2db(self._signal_ratio[i] / self._ase_ratio[i]) - spec_lin2db(12.5e9 / self._baud_rate[i])',
+    'opt_snr_nli_db': 'spec_lin2db(self._signal_ratio[i] / self._nli_ratio[i]) - spec_lin2db(12.5e9 / self._baud_rate[i])',
+    'opt_gsnr_db': 'spec_lin2db(self._signal_ratio[i] / (self._ase_ratio[i] + self._nli_ratio[i])) - spec_lin2db(12.5e9 / self._baud_rate[i])',
+}
+for _acc, _def in _ACC.items():
+    contract(f'gnpy.core.info.SpectralInformation.{_acc}', props=['C01', 'C02'], params={'self': SI()}, spec=SPEC_INV,
+             requires=[('inv', 'INV(self)'), ('noise_present', f'forall(lambda i: self._ase_ratio[i] > 0 and self._nli_ratio[i] > 0 and '
+                                                               f'self._baud_rate[i] > 0, {_N})')],
+             ensures=[('is_the_share_it_is_named_after', f'forall(lambda i: at(result, i) == {_def}, {_N})')],
+             use_at_calls=False, modifies=[])
